@@ -150,7 +150,12 @@ class Decoder:
         return self._record_obs(name, fields, payload[1])
 
     def _record_obs(self, name, fields, values):
-        allf = fields + RESERVED
+        # a definition may declare one field name more than once: the record then has ONE slot of that name, at the
+        # position of the first declaration and of the type of the last one
+        eff = {}
+        for t, n in fields:
+            eff[n] = t  # dict keeps the first position, takes the last type
+        allf = [[t, n] for n, t in eff.items()] + RESERVED
         values = list(values)
         expected = len(allf)
         if len(values) > expected:
